@@ -11,7 +11,7 @@ use crate::plan::{Knobs, Op};
 use crate::rng::{mix2, Rng};
 use crate::simfs::{classify, FileClass, FsState, SimFs};
 use crate::world::*;
-use raindb::{Batch, WriteOptions, DB};
+use raindb::{Batch, RainDbIterator, ReadOptions, WriteOptions, DB};
 use raindb_verif_rt as rt;
 use serde::{Deserialize, Serialize};
 use std::collections::BTreeMap;
@@ -143,6 +143,17 @@ impl Explainer {
     }
 }
 
+/// True once the wall-clock budget of the batch (`RAINSIM_DEADLINE_MS`, unix milliseconds, set by
+/// the batch runner and inherited by child processes) plus a grace period is used up.
+fn deadline_passed() -> bool {
+    static DEADLINE: std::sync::OnceLock<Option<u128>> = std::sync::OnceLock::new();
+    let d = DEADLINE.get_or_init(|| std::env::var("RAINSIM_DEADLINE_MS").ok().and_then(|s| s.parse::<u128>().ok()));
+    match d {
+        Some(d) => std::time::SystemTime::now().duration_since(std::time::UNIX_EPOCH).map(|n| n.as_millis() > *d).unwrap_or(false),
+        None => false,
+    }
+}
+
 /// Reopen simulation on a (mutated) image. Returns the first finding, if any.
 fn check_image(state: &FsState, knobs: &Knobs, keys: &[Vec<u8>], ex: &Explainer, what: &str, class: &str) -> Option<Finding> {
     let fs = Arc::new(SimFs::from_state(state.clone()));
@@ -197,8 +208,104 @@ fn check_image(state: &FsState, knobs: &Knobs, keys: &[Vec<u8>], ex: &Explainer,
             }
         }
     }
+    // Cursor program on a damaged table: seeks to present and absent keys, then one step forward and
+    // one back. A positioning call that returns Ok and leaves status() empty must be where a sorted
+    // map of the written pairs would be (no visible key between the target and the reported
+    // position may be skipped, no unexplained value shown).
+    if finding.is_none() && what.starts_with("table") {
+        finding = seek_program(&db, keys, ex, what, &sig);
+    }
     let _ = call("drop", move || drop(db));
     finding
+}
+
+/// First universe key >= `target` that must be visible (its allowed set lacks "absent") and lies
+/// before `upto` (exclusive; None = no bound).
+fn must_see_between(keys: &[Vec<u8>], ex: &Explainer, target: &[u8], upto: Option<&[u8]>) -> Option<Vec<u8>> {
+    let mut ks: Vec<&Vec<u8>> = keys.iter().filter(|k| k.as_slice() >= target && upto.map(|u| k.as_slice() < u).unwrap_or(true)).collect();
+    ks.sort();
+    ks.into_iter().find(|k| !ex.allowed(k).contains(&None)).cloned()
+}
+
+fn check_pos<I: RainDbIterator<Key = Vec<u8>>>(keys: &[Vec<u8>], ex: &Explainer, target: &[u8], it: &I, how: &str) -> Option<String> {
+    if it.status().is_some() {
+        return None;
+    }
+    let pos = if it.is_valid() { it.current().map(|(k, v)| (k.clone(), v.clone())) } else { None };
+    if let Some(skipped) = must_see_between(keys, ex, target, pos.as_ref().map(|p| p.0.as_slice())) {
+        return Some(format!("{} {} returned Ok with no error status, positioned at {} - but key {} lies in between and was written", how, show_key(target), pos.as_ref().map(|p| show_key(&p.0)).unwrap_or("<invalid>".into()), show_key(&skipped)));
+    }
+    if let Some((k, v)) = pos {
+        if k.as_slice() < target {
+            return Some(format!("{} {} is positioned before its target, at {}", how, show_key(target), show_key(&k)));
+        }
+        if !ex.allowed(&k).contains(&Some(v.clone())) {
+            return Some(format!("{} {} shows {} = {} which is not what was written (model: {})", how, show_key(target), show_key(&k), show_val(&v), show_opt(&ex.model.get(&k).cloned())));
+        }
+    }
+    None
+}
+
+fn seek_program(db: &DB, keys: &[Vec<u8>], ex: &Explainer, what: &str, sig: &str) -> Option<Finding> {
+    let mut targets: Vec<Vec<u8>> = vec![];
+    for k in keys.iter().take(16) {
+        targets.push(k.clone());
+        let mut a = k.clone();
+        a.push(0);
+        targets.push(a);
+        if !k.is_empty() {
+            let mut b = k.clone();
+            b.pop();
+            targets.push(b);
+        }
+    }
+    let r = call("seek-program", || -> Option<String> {
+        let mut it = match db.new_iterator(ReadOptions { fill_cache: fill_cache(), snapshot: None }) {
+            Ok(it) => it,
+            Err(_) => return None,
+        };
+        for t in &targets {
+            if it.status().is_some() {
+                // an iterator that reported an error is finished; take a new one
+                it = match db.new_iterator(ReadOptions { fill_cache: fill_cache(), snapshot: None }) {
+                    Ok(it) => it,
+                    Err(_) => return None,
+                };
+            }
+            if it.seek(t).is_err() {
+                continue;
+            }
+            if let Some(d) = check_pos(keys, ex, t, &it, "seek to") {
+                return Some(d);
+            }
+            if it.is_valid() && it.status().is_none() {
+                // one step forward: the next visible key after the current one
+                let cur = it.current().map(|(k, _)| k.clone()).unwrap();
+                let mut after = cur.clone();
+                after.push(0);
+                it.next();
+                if let Some(d) = check_pos(keys, ex, &after, &it, "next() after seek to") {
+                    return Some(d);
+                }
+                // and back: must be on `cur` again (or report an error)
+                if it.is_valid() && it.status().is_none() {
+                    it.prev();
+                    if it.status().is_none() {
+                        let back = if it.is_valid() { it.current().map(|(k, _)| k.clone()) } else { None };
+                        if back.as_ref() != Some(&cur) && !ex.allowed(&cur).contains(&None) {
+                            return Some(format!("prev() after next() after seek to {} is at {} instead of {}", show_key(t), back.as_ref().map(|k| show_key(k)).unwrap_or("<invalid>".into()), show_key(&cur)));
+                        }
+                    }
+                }
+            }
+        }
+        None
+    });
+    match r {
+        Called::Ok(Some(d)) => Some(Finding::new(&["C15"], "seek-silently-wrong", &format!("{}|seek", sig), format!("{}: {}", what, d), None)),
+        Called::Ok(None) => None,
+        Called::Panicked { message, location } => Some(Finding::new(&["C15"], "panic-on-corrupt-file", &format!("{}|seek|{}", sig, panic_signature(&message, &location)), format!("{}: an iterator positioning call panicked instead of returning an error: {} at {}", what, message, location), None)),
+    }
 }
 
 fn spec_from(state: &FsState, writes: &[Items], skippable: &[usize], keys: &[Vec<u8>], what: &str, knobs: &Knobs, class: &str) -> CorruptSpec {
@@ -418,6 +525,12 @@ pub fn body(case: &Case, out: &Shared) {
                 if o != idx {
                     return true;
                 }
+            }
+            if only.is_none() && deadline_passed() {
+                // the batch's wall-clock budget is used up: the remaining mutations of this base
+                // run are counted, not evaluated (which ones get evaluated never changes a verdict)
+                with_out(out, |o| o.stats.bump("corruptions_skipped_after_batch_deadline", 1));
+                return true;
             }
             if in_child {
                 // progress marker: if this process dies (allocation failure aborts rather than
